@@ -78,3 +78,19 @@ claim("C15",
       "grammar-directed mutation fuzzing under Hypothesis: token deletions / duplications / swaps / replacements, extreme literals, spliced programs, deep nesting, raw text, drawn option sets and size maps, CLI file names; oracle 'text or documented refusal, no hang', internal failures bucketed by (exception type, innermost function in coco/, message part)",
       "Generated-input search; five recorded internal failures are recognised by call site, any other internal exception, wrong return type or hang is a violation. The atheris coverage-guided target of the design is not built (see DESIGN.md).",
       "Trusts the list of documented refusal exceptions; hang limit 20 s / 120 s against a normal cost of milliseconds.", "DESIGN.md section 6, C15")
+claim("C03",
+      "differential PBT: Hypothesis-generated programs over arrays / DATA-READ-RESTORE / PRINT lists / INPUT / string functions, event-trace comparison between the Color BASIC and BASIC09 reference interpreters under storage 32/80 and both initialize_vars values, with uninitialised-read and truncation tracking in the BASIC09 interpreter",
+      "Generated-input search; the oracle compares every PRINT event (items, separator kinds, line ends, numbers by value), every INPUT event (prompt, target count) and through them all element and variable values; with initialize_vars any read of a never-written variable or element in the translation is a violation.",
+      LANG_NOTE, "DESIGN.md section 6, C03")
+claim("C04",
+      "differential PBT against a role table: every device-statement form enumerated once with literal operands + Hypothesis-drawn operand expressions; Color BASIC reference evaluates operands, BASIC09 reference records every RUN; parameter positions looked up by name in the current ecb.b09",
+      "The 59 statement forms are enumerated completely on every run; operand expressions are searched. Decides procedure choice, value at the position of each role's parameter, documented defaults for omitted operands, record arguments, speed-poke handling and the HBUFF prologue.",
+      LANG_NOTE + "The role table (DESIGN.md appendix D) is written from the Color BASIC manuals.", "DESIGN.md section 6, C04")
+claim("C05",
+      "differential + static PBT: Hypothesis-generated nests of convertible functions in 15 statement slots inside a two-iteration loop; call sequence (function, argument values) of the Color BASIC reference vs RUN events of the BASIC09 reference, scripted device values make order observable; static def-before-use check of temporaries per statement group",
+      "Generated-input search over slots and nesting patterns; decides once-per-execution, order, no lost call or operand (printed values), and that no temporary is read before the same statement group assigns it.",
+      LANG_NOTE + "Whether a printed number passes through the formatter is number formatting (not judged).", "DESIGN.md section 6, C05")
+claim("C20",
+      "exhaustive enumeration with a reference-model oracle: the text of ecb_instr / ecb_string / ecb_read_filter from the current ecb.b09 is executed by the BASIC09 reference interpreter over complete small domains and compared with the Color BASIC definitions",
+      "INSTR: all 5 292 (start, subject over {A,B} up to length 5, pattern up to length 3) triples; STRING$: 14 strings x a stride of counts (all 256 in the thorough tier); read filter: the empty item and 30 numeral spellings. Found and repaired: ecb_instr never assigned its result.",
+      "Trusts B09-4/B09-5/B09-8 (FOR semantics, INTEGER variables, MID$/LEN/VAL) as implemented in vf/b09/interp.py.", "DESIGN.md section 6, C20")
